@@ -22,7 +22,7 @@ ASSUMPTIONS = [
     'an event goes to the listeners registered when it arrives (a listener removed during the delivery still sees that event); '
     'three-valued: the payload of a data-block event may or may not end with the text of the closing 650 OK line',
 ]
-BOUNDS = {'quick': {'listeners': 3, 'events': '1..2', 'wire_forms': '4 (single line, bare name, mid+end lines, data block)', 'queue_states': 3, 'reply_shapes': '3 (mid+final), 5 (data block), 2 (5xx)', 'subscription_operations': 5},
+BOUNDS = {'quick': {'listeners': 3, 'events': '1..2', 'wire_forms': '5 (single line, bare name, text starting with a blank, mid+end lines, data block)', 'queue_states': 3, 'reply_shapes': '3 (mid+final), 5 (data block), 2 (5xx)', 'subscription_operations': 5},
           'thorough': {'listeners': 3, 'events': '1..3', 'subscription_operations': 6}}
 OUTSIDE = ['events arriving inside a reply', 'listener callbacks that re-enter queue_command other than through remove_event_listener',
            'more than 3 listeners / 3 events']
@@ -37,6 +37,9 @@ def event_wire(form, name, tag):
         return (['650 %s %s one' % (name, tag)], ['%s one' % tag])
     if form == 1:
         return (['650-%s %s first' % (name, tag), '650-second=2', '650 third'], ['%s first' % tag, 'second=2', 'third'])
+    if form == 4:
+        # the text after the name begins with a blank of its own (two blanks on the wire)
+        return (['650 %s  %s indented' % (name, tag)], [' %s indented' % tag])
     if form == 3:
         # an event that consists of its name only (control-spec: "650 DESCCHANGED"): the listener hears an empty text
         return (['650 %s' % name], [''])
@@ -187,13 +190,13 @@ def _scenario(q, shape, forms, names, behaviours):
     return ''
 
 
-_Q = [{'q': q, 'shape': sh, 'f1': f} for q in range(3) for sh in ((0,) if q == 0 else (3, 5, 2, 10)) for f in range(4 if q == 0 else 3)]
+_Q = [{'q': q, 'shape': sh, 'f1': f} for q in range(3) for sh in ((0,) if q == 0 else (3, 5, 2, 10)) for f in range(5 if q == 0 else 3)]
 
 
 @cond(quick=dict(parts=_Q, budget=100), thorough=dict(parts=_Q, budget=300))
 def c02_two_events(f1: int, f2: int, n1: int, n2: int, two: bool, b1: int, b2: int, b3: int, q: int, shape: int) -> str:
     """1-2 events (forms f1,f2; names subscribed/unsubscribed) with 3 listeners of symbolic behaviour, queue state q"""
-    f2 = api.pick(f2, 0, 3)
+    f2 = api.pick(f2, 0, 4)
     n1 = api.pick(n1, 0, 1)
     n2 = api.pick(n2, 0, 1)
     b1 = api.pick(b1, 0, 3)
